@@ -18,6 +18,7 @@ import SharkVerif.Lemmas.DCFront
 import SharkVerif.Lemmas.RatLift
 import SharkVerif.Lemmas.Subset2D
 import SharkVerif.Lemmas.Contrib3DE
+import SharkVerif.Lemmas.HOY
 namespace SharkVerif.C13
 open SharkVerif.Pareto SharkVerif.HV SharkVerif.DC
 
@@ -557,5 +558,56 @@ theorem contribution3d_needs_nondominated :
     ∃ (S : List Pt) (r : Pt), (∀ p ∈ S, p.length = 3) ∧ r.length = 3 ∧ (∀ p ∈ S, leAll p r = true) ∧
       ¬ ∀ c ∈ contribs3d S r, c.1 = contribSpec S r c.2 :=
   contribs3d_needs_nondominated
+
+/-! ## HypervolumeCalculatorMDHOY
+
+Model: `Model/HOY.lean`.  Proved (`Lemmas/HOYBasic.lean`, `Lemmas/HOY.lean`): the cover scan, the pile/trellis case
+(`computeTrellis` = Π(up−low) − Π(trellis−low) = the covered part of a level), the split case for a bound inside the
+region, the entry (filter, sort, doubling, `regLow`).  The C++ keeps the `boundaries` arrays when it advances `split`,
+so the median used as bound for an objective can be a value collected for an earlier objective and lie outside the
+region; this is reachable from `operator()` (corpus/C13/subroutines.txt) and harmless there (objectives behind
+`split` are uncut: an out-of-region bound adds an uncovered slab or a uniformly covered slab that the child with
+negative extent subtracts again), but the signed-extent argument is not formalised. -/
+
+open SharkVerif.HOY in
+/-- **C13 (HOY, `stream`)** — `_partial`: on every state satisfying the invariant `Reg` (dimensions, `low ≤ up`, points
+reach into the region, sorted by the last objective, below `cover`) whose run passes the executable checker
+`streamOk` (depth budget not exhausted, every split objective `< m-1`, every bound within `[low, up]` of its
+objective), `stream` returns the number of dominated cells of the region below `cover`. -/
+theorem hoy_stream_eq_spec_partial (sqrtN m fuel : Nat) (low up : Pt) (pts : List Pt) (split : Nat) (cover : Int)
+    (h : Reg m low up pts cover) (hok : streamOk sqrtN fuel low up pts split cover = true) :
+    stream sqrtN fuel low up pts split cover = ((streamSpec low up pts cover : Nat) : Int) :=
+  stream_eq_spec_partial sqrtN m fuel low up pts split cover h hok
+
+open SharkVerif.HOY in
+/-- **C13 (HypervolumeCalculatorMDHOY::operator())** — `_partial`: for every finite set of points of the dimension of
+the reference point (no hypothesis on dominance, duplicates, boundary points) whose run passes `hoyOk` — the Boolean
+replay of the run that checks the three conditions of `streamOk` at every node — the value is the dominated
+hypervolume.  `hoyOk` is false on some admissible inputs (out-of-region bounds, see above): there the result is still
+observed to be correct (correspondence + oracle, incl. `stream` called directly on reachable states) but not proved.
+Missing for the full statement `hvHoy S r = hvSpec S r`: the signed-extent version of the split lemma and a bound on
+the recursion depth. -/
+theorem hvHoy_eq_spec_partial (S : List Pt) (r : Pt) (hS : ∀ p ∈ S, p.length = r.length) (hr : 1 ≤ r.length)
+    (hok : hoyOk S r = true) : hvHoy S r = ((hvSpec S r : Nat) : Int) :=
+  SharkVerif.HOY.hvHoy_eq_spec_partial S r hS hr hok
+
+open SharkVerif.HOY in
+/-- the front end in exactly 4 objectives, under the same run condition (complements `hvDisp_eq_spec_partial`) -/
+theorem hvDisp_four_objectives_partial (S : List Pt) (r : Pt) (hS : ∀ p ∈ S, p.length = r.length) (h4 : r.length = 4)
+    (hok : hoyOk S r = true) : hvDisp S r = ((hvSpec S r : Nat) : Int) := by
+  unfold hvDisp
+  by_cases he : S.isEmpty = true
+  · have : S = [] := List.isEmpty_iff.mp he
+    subst this; simp [hvSpec_nil]
+  · rw [if_neg he]
+    split
+    · next h => omega
+    · next h => omega
+    · exact SharkVerif.HOY.hvHoy_eq_spec_partial S r hS (by omega) hok
+    · next h1 h2 h3 => exact absurd h4 h3
+
+/-- non-vacuity: a 3-objective state with two mutually non-dominated points (a split node and pile nodes below it) -/
+example : SharkVerif.HOY.streamOk 1 20 [0, 0, 0] [4, 4, 4] [[2, 1, 0], [1, 2, 1]] 0 4 = true ∧
+    SharkVerif.HOY.stream 1 20 [0, 0, 0] [4, 4, 4] [[2, 1, 0], [1, 2, 1]] 0 4 = 30 := by decide
 
 end SharkVerif.C13
